@@ -142,7 +142,21 @@ func runC09(c *mon.Ctx) {
 		if N > 1500 {
 			step = 7
 		}
+		var ms []int
 		for m := 0; m <= N; m += step {
+			ms = append(ms, m)
+		}
+		if step > 1 {
+			for p2 := 1; p2 <= N; p2 *= 2 { // sizes around every power of two are always included
+				for _, m := range []int{p2 - 1, p2, p2 + 1} {
+					if m <= N {
+						ms = append(ms, m)
+					}
+				}
+			}
+			ms = append(ms, N-1, N)
+		}
+		for _, m := range ms {
 			id := fmt.Sprintf("treehash:%d:%d", N, m)
 			rd.limit = tlog.StoredHashCount(int64(m))
 			rd.beyond = nil
